@@ -371,7 +371,7 @@ def C19.failedErs (ers : ERS) (t : Time) : ERS :=
       [{ type := "Canary-Failed", status := "True", lastTransition := t, lastUpdate := t,
          reason := "Manually failed", message := "" }] } }
 
-theorem findCond_append_single (cs : List Cond) (c : Cond) (t : String) :
+theorem findCond_append_single_cases (cs : List Cond) (c : Cond) (t : String) :
     findCond (cs ++ [c]) t =
       match findCond cs t with
       | some x => some x
@@ -389,7 +389,7 @@ theorem C19_fail_reads (ers : ERS) (t : Time) :
       | none => true
       | some c => c.status == "True" := by
   unfold isCanaryFailed isCondTrue C19.failedErs
-  simp only [findCond_append_single]
+  simp only [findCond_append_single_cases]
   cases findCond ers.status.conds "Canary-Failed" with
   | none => rfl
   | some c => rfl
@@ -478,7 +478,7 @@ theorem C19_fail_via_updateCond (cs : List Cond) (now : Time) (reason desc : Str
   | none =>
     simp only [beq_self_eq_true, Bool.true_or, if_true]
     unfold isCondTrue
-    rw [findCond_append_single, hfc]
+    rw [findCond_append_single_cases, hfc]
     rfl
   | some c0 =>
     simp only []
